@@ -1,14 +1,20 @@
 /-- commonroad/visualization/mp_renderer.py: MPRenderer._draw_history — an occupancy drawn with the faded copy of the parameters is a `hist` item -/
-def _draw_history (draw_params : CR.Draw.DynFlags) (dyn_obs : CR.Draw.Obst) : List Item := Id.run do
-  let mut out : List Item := []
-  let mut time_begin : Int := draw_params.tb
-  let mut history_steps : Int := draw_params.histSteps
-  let mut history_step_size : Int := draw_params.histStepSize
-  out := out ++ ((CR.PyC19.pyRangeDown history_steps 0)).flatMap (fun history_idx => Id.run do
-      let mut out : List Item := []
-      let mut time_step : Int := (time_begin - (history_idx * history_step_size))
-      let mut occ : Option CR.PyC19.OccH := (CR.PyC19.occupancyAt dyn_obs time_step)
-      if occ.isSome then
-        out := out ++ [Item.hist (occ.getD default).t]
-      return out)
-  return out
+def _draw_history (draw_params : CR.Draw.DynFlags) (dyn_obs : CR.Draw.Obst) : List Item :=
+  let out : List Item := []
+  let time_begin : Int := draw_params.tb
+  let history_steps : Int := draw_params.histSteps
+  let history_step_size : Int := draw_params.histStepSize
+  let out := out ++ ((CR.PyC19.pyRangeDown history_steps 0)).flatMap (fun history_idx =>
+      let out : List Item := []
+      let time_step : Int := (time_begin - (history_idx * history_step_size))
+      let occ : Option CR.PyC19.OccH := (CR.PyC19.occupancyAt dyn_obs time_step)
+      let r1 := if occ.isSome then
+          let out : List Item := []
+          let out := out ++ [Item.hist (occ.getD default).t]
+          out
+        else
+          let out : List Item := []
+          out
+      let out := out ++ r1
+      out)
+  out
